@@ -215,6 +215,9 @@ func runC14(c *Check) {
 	c.locationKeyIsAddress()
 	c.unsampledRateOne()
 	c.replacerAccumulates()
+	c.partialLastLineProcessed()
+	c.offsetsComparedWhenBothKnown()
+	c.wordReadersHaveOneByteOrder()
 }
 
 // signalFrameRemoval (R6): the binary CPU parser removes the frame at position 1 only from
